@@ -565,10 +565,7 @@ func (w *World) CreateReq(taskID string, c *Coll) *request.CreateRequest {
 // Teardown stops everything of a (dead or live) incarnation so that its goroutines and the process-global
 // ts-manager entries go away (a real crash takes the whole process with it).
 func (inc *Inc) Teardown() {
-	snap := inc.CDC.VerifSnapshot()
-	for _, t := range snap.Tasks {
-		_, _ = inc.CDC.Pause(&request.PauseRequest{TaskID: t.TaskID})
-	}
+	inc.CDC.VerifShutdown()
 	_ = pfake.WaitQuiescent(5 * time.Second)
 	incMu.Lock()
 	delete(incOf, inc.CDC)
